@@ -149,3 +149,53 @@ func extraDomains(ck *drv.Check) {
 			}
 		}})
 }
+
+// restoredContinuation: a wallet restored from its mnemonic and fast-forwarded to index a keeps signing exactly as the
+// original that reached a by signing — not only the first signature after the jump, every one up to the last leaf.
+func restoredContinuation(ck *drv.Check) {
+	restoredContinuationH(ck, "restored-continuation", "", 4)
+	restoredContinuationH(ck, "restored-continuation-h6", "t", 6)
+}
+
+func restoredContinuationH(ck *drv.Check, name, tier string, hh uint8) {
+	ck.Domains = append(ck.Domains, &drv.Domain{Name: name, Tier: tier, Size: 3, Chunk: 1,
+		Desc: "h = 4 (thorough also 6) x 3 hash functions (real hashes): the original signs every index 0..2^h-1; for EVERY a the wallet rebuilt from the mnemonic does SetIndex(a) and signs a..2^h-1: every signature byte-equal to the original's at that index and valid (a catch-up loop that leaves the traversal state slightly behind shows several signatures after the jump)",
+		Run: func(c *drv.Ctx, lo, hi int64) {
+			for i := lo; i < hi; i++ {
+				c.At(i)
+				h, hf := hh, int(i%3)
+				var seed [48]byte
+				for k := range seed {
+					seed[k] = byte(k*11 + int(i) + int(hh))
+				}
+				orig := xmss.NewXMSSFromSeed(seed, h, xmss.HashFunction(hf), common.SHA256_2X)
+				pk := orig.GetPK()
+				mn := orig.GetMnemonic()
+				n := 1 << h
+				msg := []byte("restored continuation")
+				sigs := make([][]byte, n)
+				for j := 0; j < n; j++ {
+					sigs[j], _ = orig.Sign(msg)
+				}
+				bad := false
+				for a := 0; a < n && !bad; a++ {
+					k2 := xmss.NewXMSSFromExtendedSeed(mnemonicToES(mn))
+					if a > 0 {
+						k2.SetIndex(uint32(a))
+					}
+					for j := a; j < n; j++ {
+						s, err := k2.Sign(msg)
+						c.Eval(1)
+						c.Nontrivial(1)
+						if err != nil || !bytes.Equal(s, sigs[j]) || !xmss.Verify(msg, s, pk) {
+							c.Fail(i, "restored-wallet-diverges-from-the-original-after-setindex", map[string]any{"height": h, "hash": hf, "setindex_target": a, "diverges_at_index": j, "signatures_after_the_jump": j - a + 1, "valid": err == nil && xmss.Verify(msg, s, pk)})
+							bad = true
+							break
+						}
+					}
+					c.Tick()
+				}
+				c.Outcome("equal")
+			}
+		}})
+}
